@@ -154,6 +154,55 @@ def flag_encoding(chk, prog, config="default"):
                          sample={"setter": fn, "value": dec(v), "tag_bits_before": low, "after": {k: str(x) for k, x in after.items()}} if n in (1, 40) else None)
     chk.extra["flag_states"] = 16
     chk.extra["setter_getter_round_trips"] = n
+    # a fresh header (GcHeader::new) decodes as White, not live, needs-trace false, no link: the allocation state the
+    # automaton starts from (live and needs-trace are then set by the builder, checked in C01 / C04)
+    if chk.anchor("gc_ptr::GcHeader::new", "gc_ptr::GcHeader::new" in prog.seed_n):
+        try:
+            from gcv.gcmodel import variant_name
+            o = _run1(ip, prog, "gc_ptr::GcHeader::new", [("addr", "vtable", 0)], State())
+            st = State()
+            st.mem[("hdr",)] = o.value
+            res = {}
+            for gname, (fn, dec) in getters.items():
+                v = _run1(ip, prog, fn, [ref(("hdr",), ())], st.fork()).value
+                res[gname] = variant_name(prog, "types::GcColor", v[2]) if gname == "color" and v[0] == "adt" else dec(v)
+            nxt = _run1(ip, prog, "gc_ptr::GcHeader::next", [ref(("hdr",), ())], st.fork()).value
+            probs = []
+            if res["color"] != "White":
+                probs.append("colour %s" % res["color"])
+            if res["is_live"] != 0:
+                probs.append("flagged live before a value exists")
+            if res["needs_trace"] != 0:
+                probs.append("needs-trace set")
+            if not (nxt[0] == "adt" and nxt[2] == 0):
+                probs.append("link %s" % (nxt,))
+            chk.inst("fresh-header-state", "gc_ptr::GcHeader::new[%s]" % config, not probs,
+                     detail="a fresh header is not (White, not live, needs-trace false, unlinked): %s" % "; ".join(probs))
+        except (interp.Unmodelled, interp.InterpError, KeyError) as e:
+            chk.inst("fresh-header-state", "gc_ptr::GcHeader::new[%s]" % config, False, detail="could not be analysed: %s" % e)
+    # the list link accessors (primitives of the typestate engine): set_next(x) then next() gives x back and the
+    # flags / vtable word are untouched, for an empty and a non-empty link
+    for fnname in ("gc_ptr::GcHeader::next", "gc_ptr::GcHeader::set_next"):
+        chk.anchor(fnname, fnname in prog.seed_n)
+    if "gc_ptr::GcHeader::next" in prog.seed_n and "gc_ptr::GcHeader::set_next" in prog.seed_n:
+        for low in (0, 13):
+            for link in (adt("core::option::Option", 0, ()), adt("core::option::Option", 1, (("obj", 5),))):
+                st0, _ = _hdr_state(prog, low)
+                name = "set_next/next(%s,low=%d)[%s]" % ("None" if link[2] == 0 else "Some", low, config)
+                try:
+                    before = read_all(st0)
+                    o = _run1(ip, prog, "gc_ptr::GcHeader::set_next", [ref(("hdr",), ()), link], st0.fork())
+                    got = _run1(ip, prog, "gc_ptr::GcHeader::next", [ref(("hdr",), ())], o.st.fork()).value
+                    after = read_all(o.st)
+                except (interp.Unmodelled, interp.InterpError, KeyError) as e:
+                    chk.inst("header-link-round-trip", name, False, detail="could not be analysed: %s" % e)
+                    continue
+                probs = []
+                if got != link:
+                    probs.append("next() returns %s after set_next(%s)" % (got, link))
+                if after != before:
+                    probs.append("set_next changed the flags / vtable word: %s -> %s" % (before, after))
+                chk.inst("header-link-round-trip", name, not probs, detail="; ".join(probs))
 
 
 # ------------------------------------------------------------------------------------------------ term agreement
